@@ -53,7 +53,7 @@ def build(r, name, n, mask, fieldless, generics=None):
     if r.random() < 0.2:
         s.nest = True
         if r.random() < 0.5:
-            s.vis = r.choice(["pub(crate)", "pub(super)"])
+            s.vis = r.choice(["pub(crate)", "pub(super)", "pub(in super::super)"])
     if not fieldless and r.random() < 0.4:
         dv = Variant(ident="CatchAll%s" % name, kind="tuple", fields=[Field(ty="String")], default=True)
         if r.random() < 0.3:
